@@ -1,5 +1,6 @@
 import Bxh.Proofs.ExecLemmas
 import Bxh.Proofs.GoRemove
+import Bxh.Proofs.RouterLemmas
 /-!
 # C06 — timeout rollback fires exactly at the timeout height and never otherwise
 Theorems about the executor's timeout bookkeeping (`setTimeoutList`, `getTimeoutList`,
@@ -122,6 +123,15 @@ theorem C06_remove_keeps_others (lst : List (Option TId)) (x y : TId) (hc : lst.
     have h1 := List.count_erase_self (a := some x) (l := lst)
     have h2 := List.count_pos_iff.mpr hm
     omega
+
+/-! ### the timeout notification reaches the source chain's pier -/
+
+/-- **every chain's pier is handed exactly the timed-out ids the block lists for it**, whatever else the block holds (also a block
+without a single interchain transaction) -/
+theorem C06_router_hands_each_pier_its_timeouts (cfg : Cfg) (n : Node) (txs : List (Tx × Bool)) (d : String)
+    (hm : Router.Keyed (execBlock cfg n txs).2.multiCounter) :
+    (Router.deliver (execBlock cfg n txs).2 d).timeouts = KV.getD (execBlock cfg n txs).2.timeoutCounter d [] := by
+  rw [Router.deliver_spec _ (Router.applyTxs_counter_keyed ..) (Router.getTimeoutMap_keyed ..) hm]
 
 end Bxh.Props.C06
 
